@@ -199,6 +199,41 @@ def linkIdx (nas : Nas) (r : Nat × Nat) : Option (List Nat) :=
 when every row is in the p-set) -/
 def aRows (amask : Nat) (tbl : List Row) : List Nat := positions (tbl.map fun r => inSet r.2.2 amask)
 
+/-- the `k`-th a-set DOF of SE `c` can carry a flag at all: `c` flags it itself (`qupOwn`), or its
+row in the table of `c` is a place of a connection into `c` -/
+def canFlag (am qm pm : Nat) (nas : Nas) (c k : Nat) : Bool :=
+  match lookupD nas.uset c with
+  | .error _ => false
+  | .ok u =>
+      (match qupOwn am qm pm u with
+        | .ok q0 => q0[k]? == some true
+        | .error _ => false) ||
+      (match (aRows am u)[k]? with
+        | none => false
+        | some j => nas.selist.any fun r => r.2 == c &&
+            (match linkIdx nas r with | some idx => idx.contains j | none => false))
+
+/-- the connections of a dictionary are separate (`C18.Separate`, as a computation): the places of
+one connection are distinct and as many as the upstream SE has a-set DOF, and a place that two
+different upstream SEs of one SE have in common (a shared boundary grid) cannot carry a flag in
+either of them -/
+def separateB (am qm pm : Nat) (nas : Nas) : Bool :=
+  (nas.selist.all fun r =>
+    match linkIdx nas r with
+    | none => true
+    | some idx =>
+        decide idx.Nodup &&
+        (match lookupD nas.uset r.1 with
+          | .ok u => idx.length == (aRows am u).length
+          | .error _ => true)) &&
+  (nas.selist.all fun r => nas.selist.all fun r' =>
+    (r.2 != r'.2 || r.1 == r'.1) ||
+    (match linkIdx nas r, linkIdx nas r' with
+      | some idx, some idx' =>
+          (List.range idx.length).all fun k => (List.range idx'.length).all fun k' =>
+            idx[k]? != idx'[k']? || (!canFlag am qm pm nas r.1 k && !canFlag am qm pm nas r'.1 k')
+      | _, _ => true))
+
 /-! ### `_findse` -/
 
 /-- `_findse(nas, se)`: the first row of `selist` whose first column is `se` (`ValueError` when
